@@ -81,6 +81,11 @@ private:
 inline pthread_t engineTid;
 inline bool engineTidSet = false;
 
+/** Free-running sessions only: an "@await" gives up after this many seconds of wall-clock time, writes "> @await-timeout <what>" and the
+ *  script goes on (so that a search that lost its limit is stopped by the following quit instead of holding the child until the alarm).
+ *  0 = wait for ever (sessions under the controlled scheduler, where waiting is virtual). */
+inline int awaitLimitS = 0;
+
 inline int runScriptInChild(const std::vector<std::string>& script, int outFd, int timeoutS) {
     alarm((unsigned)timeoutS);
     InBuf ib; OutBuf ob; ob.fd = outFd;
@@ -92,12 +97,19 @@ inline int runScriptInChild(const std::vector<std::string>& script, int outFd, i
         std::thread eng([&]() { engineTid = pthread_self(); engineTidSet = true; uci.engineThread.mainLoop(); });
         auto marker = [&](const std::string& s) { if (outFd >= 0) { std::string o = stamped(s) + "\n"; if (::write(outFd, o.data(), o.size())) {} } };
         for (const std::string& line : script) {
-            if (line.rfind("@await bestmove", 0) == 0) {
-                std::unique_lock<std::mutex> L(ob.m);
-                while (ob.nBest < nGo) ob.cv.wait(L);
-            } else if (line.rfind("@await readyok", 0) == 0) {
-                std::unique_lock<std::mutex> L(ob.m);
-                while (ob.nReady < nIsReady) ob.cv.wait(L);
+            if (line.rfind("@await ", 0) == 0) {
+                bool best = line.rfind("@await bestmove", 0) == 0;
+                bool arrived = true;
+                {
+                    std::unique_lock<std::mutex> L(ob.m);
+                    auto done = [&]() { return best ? ob.nBest >= nGo : ob.nReady >= nIsReady; };
+                    if (awaitLimitS <= 0) { while (!done()) ob.cv.wait(L); }
+                    else {
+                        auto end = std::chrono::steady_clock::now() + std::chrono::seconds(awaitLimitS);
+                        while (!done()) if (ob.cv.wait_until(L, end) == std::cv_status::timeout) { arrived = done(); break; }
+                    }
+                }
+                if (!arrived) marker(std::string("> @await-timeout ") + (best ? "bestmove" : "readyok"));
             } else if (line.rfind("@usleep", 0) == 0) {
                 std::this_thread::sleep_for(std::chrono::microseconds(atoll(line.c_str() + 7)));
             } else if (line.rfind("@sleep", 0) == 0) {
@@ -126,11 +138,20 @@ inline int runScriptInChild(const std::vector<std::string>& script, int outFd, i
 struct Transcript {
     std::vector<std::string> lines;   // "> cmd" for commands, everything else engine output
     int exitStatus = 0; bool signalled = false; int sig = 0; bool timedOut = false;
+    bool awaitTimedOut = false;       // an "@await" of a free-running session gave up (see awaitLimitS)
     std::string stderrTail;
 };
 
-/** Fork a child, run the script there, collect the transcript. The caller must be single-threaded. */
+inline Transcript runSessionOnce(const std::vector<std::string>& script, int timeoutS);
+inline long rerunsAfterTimeout = 0;
+/** Fork a child, run the script there, collect the transcript. The caller must be single-threaded.
+ *  A session that hits its wall-clock limit is re-run alone with a ten times longer limit before the limit is believed (slow machine). */
 inline Transcript runSession(const std::vector<std::string>& script, int timeoutS = 20) {
+    Transcript t = runSessionOnce(script, timeoutS);
+    if (t.timedOut || t.awaitTimedOut) { rerunsAfterTimeout++; t = runSessionOnce(script, timeoutS * 10); }
+    return t;
+}
+inline Transcript runSessionOnce(const std::vector<std::string>& script, int timeoutS) {
     Transcript t;
     int pfd[2], efd[2];
     if (pipe(pfd) != 0 || pipe(efd) != 0) { t.exitStatus = -1; return t; }
@@ -141,6 +162,7 @@ inline Transcript runSession(const std::vector<std::string>& script, int timeout
         dup2(efd[1], 2);
         // the engine prints to std::cout only through the stream we pass; keep stdout quiet
         int devnull = open("/dev/null", O_WRONLY); if (devnull >= 0) dup2(devnull, 1);
+        awaitLimitS = std::max(10, timeoutS / 3);
         int rc = runScriptInChild(script, pfd[1], timeoutS);
         _exit(rc);
     }
@@ -164,7 +186,7 @@ inline Transcript runSession(const std::vector<std::string>& script, int timeout
     if (WIFEXITED(st)) t.exitStatus = WEXITSTATUS(st);
     else if (WIFSIGNALED(st)) { t.signalled = true; t.sig = WTERMSIG(st); if (t.sig == SIGALRM) t.timedOut = true; }
     std::istringstream is(buf); std::string l;
-    while (std::getline(is, l)) t.lines.push_back(l);
+    while (std::getline(is, l)) { t.lines.push_back(l); if (l.find("> @await-timeout") != std::string::npos) t.awaitTimedOut = true; }
     t.stderrTail = ebuf.size() > 3000 ? ebuf.substr(ebuf.size() - 3000) : ebuf;
     return t;
 }
@@ -261,6 +283,7 @@ inline Analysis analyse(const Transcript& t, bool checkResults = true) {
         if (line.rfind("> ", 0) == 0) {
             std::string cmd = line.substr(2);
             std::istringstream is(cmd); std::string w; is >> w;
+            if (w == "@await-timeout") { add("awaited-answer-did-not-arrive", "no " + cmd.substr(cmd.find(' ') + 1) + " although the command before it must be answered without further input"); continue; }
             pt.onCommand(cmd);
             if (w == "isready") { a.nIsReady++; engineExists = true; }
             if (w == "setoption" || w == "go") engineExists = true;
